@@ -177,8 +177,10 @@ class ExprCheck:
         consts = {"K": 2, "u": 7, "a": 100, "len": 4}
         cs.consts.update(consts)
         cs.load("struct S { uint16 p; uint32 q; };")
-        ctx1 = {"a": 5, "u": 3, "b": 2, "_x1": 9, "U2": 1}
-        ctx2 = {"a": 1, "b": 6, "_x1": 0, "U2": 4}
+        # a and len are bound in a context AND are constants: the context wins, also when its value is 0 (a falsy field value
+        # must not fall through to the constant)
+        ctx1 = {"a": 5, "u": 3, "b": 2, "_x1": 9, "U2": 1, "len": 0}
+        ctx2 = {"a": 0, "b": 6, "_x1": 0, "U2": 4}
         leaves = [Node("lit", n=1), Node("lit", n=2), Node("lit", n=3), Node("id", name="a"), Node("id", name="K"),
                   Node("id", name="u"), Node("sizeof", name="uint16"), Node("sizeof", name="unsigned int")]
         recs = []
